@@ -526,6 +526,24 @@ static void f17_render (uint64_t idx) {
 static int f17_ninputs (uint64_t idx) { return 6; }
 static pinput f17_input (uint64_t idx, int i) { static const int64_t av[] = {0, 7, -1, 0x80, 0xffff8000ll, 0x123456789all}; pinput p = {av[i], av[5 - i], -1, 0, 0}; return p; }
 
+/* =============================== F18: stores through a pointer that moves in a loop, and stores through the same pointer after the loop =============================== */
+static uint64_t f18_count (int th) { return 3 * 2 * 4 * 2 * 2 * 2 * 2; }
+static void f18_render (uint64_t idx) {
+  static const char *T[] = {"i64", "i32", "u8"}, *PT[] = {"i64", "u8"};
+  int ty = idx % 3; idx /= 3; int brk = idx % 2; idx /= 2; int post = idx % 4; idx /= 4; int pty = idx % 2; idx /= 2; int val = idx % 2; idx /= 2; int pre = idx % 2; idx /= 2; int rd = (int) idx;
+  begin_func ("i64:t, i64:e"); S ("  mov t, m\n  add e, m, 24\n");
+  if (pre) S ("  mov %s:(t), 77\n", T[ty]);
+  S ("L1:\n  mov %s:(t), %s\n", T[ty], val ? "a" : "0");
+  if (brk == 0) S ("  beq E1, t, e\n  add t, t, 8\n  jmp L1\n");                 /* leave before the pointer moves: the pointer after the loop is the last one stored through */
+  else S ("  add t, t, 8\n  ble L1, t, e\n");                                    /* leave after the pointer moved */
+  S ("E1:\n");
+  if (rd) S ("  mov r1, %s:(t)\n", PT[pty]);                                      /* a load through the pointer between the loop and the later store */
+  if (post < 3) S ("  mov %s:%d(t), b\n", PT[pty], post == 0 ? 0 : post == 1 ? -8 : 8);
+  S ("  mov r, i64:(m)\n  add r, r, i64:24(m)\n"); if (rd) S ("  add r, r, r1\n"); S ("  ret r\n"); end_func ();
+}
+static int f18_ninputs (uint64_t idx) { return 4; }
+static pinput f18_input (uint64_t idx, int i) { pinput p = {i & 1 ? 0x1122334455667788ll : 0, i & 2 ? -1 : 5, -1, 0, 0}; return p; }
+
 int progfam_thorough;
 static const family FAMILIES[] = {
   {"F1a-ext-chains", f1a_count, f1a_render, in_intgrid_n, in_intgrid},
@@ -549,6 +567,7 @@ static const family FAMILIES[] = {
   {"F15-constant-operands", f15_count, f15_render, f15_ninputs, f15_input},
   {"F16-constant-first-extended", f16_count, f16_render, f16_ninputs, f16_input},
   {"F17-identity-constants", f17_count, f17_render, f17_ninputs, f17_input},
+  {"F18-loop-pointer-stores", f18_count, f18_render, f18_ninputs, f18_input},
   /* thorough only, 1.5e8 programs: kept last so that a deadline cuts this family and no other */
   {"F3t-cfg3-full", f3t_count, f3t_render, f3_ninputs, f3_input},
 };
